@@ -1,6 +1,147 @@
-import DSModel.Life.World
+/- C19 — value semantics and allocator discipline (DESIGN.md §3 C19): the property theorems.
+   Only statements and non-vacuity examples live here; the proofs are in DSProofs/Lemmas/Life*.lean.
+
+   Setting.  `DSModel/Life/Heap.lean` is a heap calculus (blocks of cells; a cell is raw storage, a live object or a
+   moved-from object, plus one plain machine word) whose primitives check their PRECONDITIONS (`Err.pre`).
+   `DSModel/Life/{Theta,Kll,Fi}.lean` are the special members and mutators of the hand-managed classes written as
+   programs over those primitives; `DSModel/Life/World.lean` runs lifecycle histories over several live objects in
+   one heap.  `run C World.init ops` = the outcome of a history: `.ok w`, `.error (.pre _)` (a primitive was applied
+   outside its precondition: double destroy, construct over a live object, read of a raw or moved-from slot, release
+   with a wrong size or with live objects inside, null / dangling dereference …), `.error (.exc _)` (the modelled C++
+   throws; the history ends there and nothing more is claimed), `.error (.bad _)` (ill-formed history).
+
+   What is proved at full strength over ALL histories is stated for the classes whose method contracts are
+   proved (`coverage`): the theta / tuple hash table.  The KLL and FI programs are modelled and tied to the code
+   by the per-operation correspondence check; their contracts are not all proved yet, which is why the theorems
+   carry the suffix `_partial` and the hypothesis `Covered ops` (no `new kll` / `new fi` in the history). -/
+import DSProofs.Lemmas.LifeSpecAll
+import DSGen.Life
 namespace DS.Life
 
-theorem placeholder_run_nil (C : Cfg) (w : World) : run C w [] = .ok w := rfl
+/-- the configuration built from the constants generated from the current headers (`hashOf`, `strideOf`, `comb`
+    are free: the theorems hold for every hash function, iterator stride and summary policy) -/
+def genCfg (hashOf strideOf : Nat → Nat) (comb : Nat → Nat → Nat) : Cfg :=
+  { theta := { rszNum := DSGen.life_theta_RESIZE_THRESHOLD_num, rszDen := DSGen.life_theta_RESIZE_THRESHOLD_den,
+               rbdNum := DSGen.life_theta_REBUILD_THRESHOLD_num, rbdDen := DSGen.life_theta_REBUILD_THRESHOLD_den,
+               strideBits := DSGen.life_theta_STRIDE_HASH_BITS, minLgK := DSGen.life_theta_MIN_LG_K },
+    thetaMaxLgK := DSGen.life_theta_MAX_LG_K,
+    kll := { defaultM := DSGen.life_kll_DEFAULT_M, minK := DSGen.life_kll_MIN_K, maxK := DSGen.life_kll_MAX_K },
+    fi := { loadNum := DSGen.life_fi_LOAD_FACTOR_num, loadDen := DSGen.life_fi_LOAD_FACTOR_den,
+            driftLimit := DSGen.life_fi_DRIFT_LIMIT, maxSample := DSGen.life_fi_MAX_SAMPLE_SIZE,
+            lgMinMap := DSGen.life_fi_LG_MIN_MAP_SIZE, hashOf := hashOf, strideOf := strideOf },
+    comb := comb }
+
+/-- the side conditions on the tunables hold for the values in the current headers (re-checked on every run
+    against the regenerated DSGen/Life.lean) -/
+theorem life_generated_tunables_ok (hashOf strideOf : Nat → Nat) (comb : Nat → Nat → Nat) :
+    (genCfg hashOf strideOf comb).OK := by
+  unfold Cfg.OK Theta.Params.OK genCfg
+  simp only
+  decide
+
+/-- histories that construct only objects of the classes whose contracts are proved -/
+def Covered (ops : List Op) : Prop := ∀ op, op ∈ ops → Allowed coverage op
+
+/-- full statement (all three classes): not yet proved for histories that construct KLL / FI objects -/
+def life_no_precondition_failure_full : Prop :=
+  ∀ (C : Cfg), C.OK → ∀ (ops : List Op) (msg : String), run C World.init ops ≠ .error (.pre msg)
+
+/-- NO PRECONDITION FAILURE: in every lifecycle history over any number of live objects no primitive is ever applied
+    outside its precondition (no double destroy, no construct over a live object, no read of a moved-from / raw slot,
+    no release with a wrong size or with live objects inside, no use of a released or foreign block).
+    Partial: histories that construct only theta / tuple tables. -/
+theorem life_no_precondition_failure_partial (C : Cfg) (hC : C.OK) (ops : List Op) (hcov : Covered ops) (msg : String) :
+    run C World.init ops ≠ .error (.pre msg) := by
+  have := run_safe (contracts C hC) ops (WorldInv.init (spec C)) hcov
+  intro e
+  rw [e] at this
+  exact this
+
+example : Covered [.newTable 0 5 0 (2 ^ 63 - 1), .update 0 11 1 [], .copy 0 1, .move 0 2, .copyAssign 0 1,
+    .moveAssign 1 2, .trim 1, .reset 0, .serialize 1, .destroy 2, .destroy 0, .destroy 1] := by
+  intro op hop
+  simp only [List.mem_cons, List.not_mem_nil, or_false] at hop
+  rcases hop with rfl | rfl | rfl | rfl | rfl | rfl | rfl | rfl | rfl | rfl | rfl | rfl <;> trivial
+
+/-- SLOTS = COUNTERS: after every operation of every history, for every live table object the set of non-raw slots of its
+    block is exactly the set of slots with a non-zero key, the block has `2^lg_cur_size` cells, `num_entries_` is the
+    number of non-zero keys, and a moved-from object owns nothing. -/
+theorem life_slots_inv_partial (C : Cfg) (hC : C.OK) (ops : List Op) (hcov : Covered ops) (w : World)
+    (hr : run C World.init ops = .ok w) (e : Entry) (he : e ∈ w.objs) (t : Theta.Table) (ht : e.obj = .table t) :
+    match t.entries with
+    | none => True
+    | some b =>
+      w.heap.count? b = some (2 ^ t.lgCur) ∧
+      (∀ i, i < 2 ^ t.lgCur → (stAt w.heap b i ≠ .raw ↔ wordAt w.heap b i ≠ 0)) ∧
+      (∀ i, i < 2 ^ t.lgCur → stAt w.heap b i ≠ .moved) ∧
+      t.num = cnt (fun i => wordAt w.heap b i != 0) (2 ^ t.lgCur) := by
+  have := run_safe (contracts C hC) ops (WorldInv.init (spec C)) hcov
+  rw [hr] at this
+  have hi := (this.inv e he).1
+  rw [ht] at hi
+  change Theta.TableInv C.theta w.heap t at hi
+  unfold Theta.TableInv at hi
+  cases hb : t.entries with
+  | none => trivial
+  | some b =>
+    simp only [hb] at hi ⊢
+    refine ⟨hi.slots.cells, ?_, ?_, hi.count⟩
+    · intro i hlt
+      rcases hi.slots.ok i hlt with ⟨hz, hr'⟩ | ⟨hnz, v, hv⟩
+      · simp [hz, hr']
+      · simp [hnz, hv]
+    · intro i hlt
+      rcases hi.slots.ok i hlt with ⟨_, hr'⟩ | ⟨_, v, hv⟩
+      · simp [hr']
+      · simp [hv]
+
+/-- OWNERSHIP: live objects own pairwise disjoint blocks, every block of the heap is owned by some live object, and
+    every owned block exists.  (Copy: `life_copy_fresh_equal`; move: `life_move_transfers`.) -/
+theorem life_ownership_partial (C : Cfg) (hC : C.OK) (ops : List Op) (hcov : Covered ops) (w : World)
+    (hr : run C World.init ops = .ok w) :
+    (∀ e1 e2, e1 ∈ w.objs → e2 ∈ w.objs → e1.id ≠ e2.id → ∀ b, b ∈ (spec C).owned e1.obj → b ∉ (spec C).owned e2.obj) ∧
+    (∀ b, b ∈ w.heap.ids → ∃ e, e ∈ w.objs ∧ b ∈ (spec C).owned e.obj) ∧
+    (∀ e, e ∈ w.objs → ∀ b, b ∈ (spec C).owned e.obj → b ∈ w.heap.ids) ∧
+    w.heap.ids.Nodup := by
+  have := run_safe (contracts C hC) ops (WorldInv.init (spec C)) hcov
+  rw [hr] at this
+  exact ⟨this.disj, this.owner, fun e he b hb => ((spec C).owned_ids (this.inv e he).1 b hb).1, this.wf.1⟩
+
+/-- COPY yields a fresh block and an equal abstraction: the copy constructor of a usable table allocates a new block
+    (id not below the old `next`), gives it the same keys slot by slot with a live entry exactly where the source has
+    one, leaves the source and every other block untouched, and both satisfy the invariant afterwards. -/
+theorem life_copy_fresh_equal (P : Theta.Params) (n0 : Nat) (o : Theta.Table) (ob : Nat) (hb : o.entries = some ob)
+    (h : Heap) (hn : n0 ≤ h.next) (ht : Theta.TableAt P h ob o.lgCur o.num) :
+    SafeX (Theta.copyCtor o h) (fun t' h' => ∃ nb, n0 ≤ nb ∧ nb ≠ ob ∧ t' = { o with entries := some nb } ∧
+      Theta.TableAt P h' nb o.lgCur o.num ∧ Theta.TableAt P h' ob o.lgCur o.num ∧ h'.ids = nb :: h.ids ∧
+      (∀ i, i < 2 ^ o.lgCur → wordAt h' nb i = wordAt h ob i ∧
+        ((∃ v, stAt h ob i = .live v ∧ stAt h' nb i = .live v) ∨ (stAt h ob i = .raw ∧ stAt h' nb i = .raw)))) := by
+  have := Theta.copyCtor_spec P n0 (foot [] n0) o ob hb (fun x hx => foot_new hx) h.ids h h hn ⟨rfl, ht, rfl⟩
+  refine SafeX.mono this ?_
+  intro t' h' ⟨⟨nb, a, b, c, d, e, f, _, g⟩, _⟩
+  exact ⟨nb, a, b, c, d, e, f, g⟩
+
+/-- MOVE transfers the block and leaves a source whose destructor and assignment are safe: the move constructor is a
+    pointer hand-over (the heap is untouched), the new object is usable and owns exactly what the source owned, the
+    source owns nothing and satisfies the invariant that the destructor and both assignments require. -/
+theorem life_move_transfers (P : Theta.Params) (h : Heap) (t : Theta.Table) (u : Theta.Usable P h t) :
+    Theta.Usable P h (Theta.moveCtor t).1 ∧ Theta.Inv P h (Theta.moveCtor t).2 ∧
+    Theta.owned (Theta.moveCtor t).1 = Theta.owned t ∧ Theta.owned (Theta.moveCtor t).2 = [] :=
+  Theta.moveCtor_spec' P h t u
+
+/-- DESTRUCTORS RETURN EVERYTHING: when a history has destroyed all its objects the heap is empty. -/
+theorem life_dtor_returns_all_partial (C : Cfg) (hC : C.OK) (ops : List Op) (hcov : Covered ops) (w : World)
+    (hr : run C World.init ops = .ok w) (hnone : w.objs = []) : w.heap.blocks = [] := by
+  have := run_safe (contracts C hC) ops (WorldInv.init (spec C)) hcov
+  rw [hr] at this
+  have hids : w.heap.ids = [] := by
+    cases hi : w.heap.ids with
+    | nil => rfl
+    | cons b bs =>
+      obtain ⟨e, he, _⟩ := this.owner b (by simp [hi])
+      rw [hnone] at he
+      cases he
+  unfold Heap.ids at hids
+  exact List.map_eq_nil_iff.mp hids
 
 end DS.Life
